@@ -422,6 +422,38 @@ fn main() {
     ctx.prop_split("histories-f64", "fft-history", ctx.n(1_200, 20_000), ctx.parts(), case(0, ctx.n(11, 14) as u32, 8).boxed(), run_case);
     ctx.prop_split("histories-f32", "fft-history", ctx.n(5_000, 800_000), ctx.parts(), case(1, 9, 12).boxed(), run_case);
     ctx.prop_split("single-calls-f64", "fft-history", ctx.n(20_000, 3_000_000), ctx.parts(), case(0, 8, 1).boxed(), run_case);
+    // first calls on a fresh object (FFT::new() and FFT::default()), all small length pairs, every call kind
+    {
+        let mut hs = Vec::new();
+        for float in 0..2u8 {
+            for fresh_default in [false, true] {
+                for la in 0..=5u32 {
+                    for lb in 0..=5u32 {
+                        let (a, b) = (Poly { len: la, shape: 3, seed: la * 7 + lb }, Poly { len: lb, shape: 2, seed: lb + 11 });
+                        let firsts = vec![
+                            Call::Mul { a: a.clone(), b: b.clone() },
+                            Call::MulInto { a: a.clone(), b: b.clone(), dst: 2, fill: 3 },
+                            Call::Spectrum { a: a.clone(), b: b.clone(), pad: 0, auto: false },
+                            Call::Spectrum { a: a.clone(), b: b.clone(), pad: 0, auto: true },
+                            Call::InvIntoTwice { a: a.clone(), b: b.clone(), dst: 1, fill: -2 },
+                            Call::CrossInverse { a: a.clone(), b: b.clone() },
+                            Call::FftIntoTwice { a: a.clone() },
+                        ];
+                        for f in firsts {
+                            let mut calls = Vec::new();
+                            if fresh_default {
+                                calls.push(Call::FreshDefault);
+                            }
+                            calls.push(f);
+                            calls.push(Call::Mul { a: Poly { len: 3, shape: 3, seed: 1 }, b: Poly { len: 2, shape: 2, seed: 2 } });
+                            hs.push(Case { float, amp: 40_000, calls });
+                        }
+                    }
+                }
+            }
+        }
+        ctx.exhaustive("first-calls-on-fresh-objects", "fft-history", "FFT::new() / FFT::default() x all length pairs 0..=5 x 7 call kinds as the first call, f64 and f32", true, hs, run_case);
+    }
     // tables beyond 2^16 entries (then a small product on the same object): explicit histories, both profiles
     {
         let big = |len: u32, shape: u8, seed: u32| Poly { len, shape, seed };
